@@ -5,6 +5,7 @@ import (
 	"context"
 	"encoding/hex"
 	"fmt"
+	"math"
 	"strings"
 	"testing"
 	"time"
@@ -28,7 +29,7 @@ type c19Content struct {
 }
 
 type c19Op struct {
-	Kind     string       `json:"kind"` // create | block | foreign | query
+	Kind     string       `json:"kind"` // create | block | foreign | query | age
 	OddID    string       `json:"odd_id,omitempty"`
 	Who      int          `json:"who,omitempty"`
 	Contents []c19Content `json:"contents,omitempty"`
@@ -55,6 +56,7 @@ type c19Machine struct {
 	nNoTx      int
 	nLarge     int
 	nOddQuery  int
+	nAged      int
 	queryPanic string
 	nOps       int
 	seq        int
@@ -70,6 +72,11 @@ var c19Digests = []string{"d0", "d1", "QmHash", ""}
 var c19Algos = []string{"sha256", "md5", ""}
 
 func (m *c19Machine) Next(t *rapid.T) c19Op {
+	if m.nOps == 0 && rapid.IntRange(0, 2).Draw(t, "aged") == 0 {
+		// the history starts on a chain that has already created almost 2^32 records: the module's record counter is
+		// a few steps before the end of its range (a state no generated history is long enough to reach)
+		return c19Op{Kind: "age", Who: rapid.IntRange(0, 6).Draw(t, "left")}
+	}
 	switch k := rapid.IntRange(0, 9).Draw(t, "kind"); {
 	case k < 6:
 		op := c19Op{Kind: "create", Who: rapid.IntRange(0, 2).Draw(t, "who"), Copies: rapid.SampledFrom([]int{1, 1, 2, 3}).Draw(t, "copies"),
@@ -169,6 +176,12 @@ func (m *c19Machine) Apply(op c19Op) error {
 				m.nDup++
 			}
 		}
+	case "age":
+		if len(m.order) > 0 || op.Who < 0 || op.Who > 6 {
+			return fmt.Errorf("bad replay op %+v", op)
+		}
+		m.c.E.K.Record.SetIntraTxCounter(m.c.Ctx, math.MaxUint32-uint32(op.Who))
+		m.nAged++
 	case "block":
 		end, begin := m.c.NextBlock(time.Duration(op.Dt), nil)
 		if end.Outcome != chain.OK || begin.Outcome != chain.OK {
@@ -285,6 +298,9 @@ func (m *c19Machine) Classify() (bool, []string) {
 	}
 	if m.nOddQuery > 0 {
 		cl = append(cl, "queries-with-ids-never-returned")
+	}
+	if m.nAged > 0 && len(m.order) >= 8 {
+		cl = append(cl, "record-counter-wrapped")
 	}
 	return m.nDup > 0, cl
 }
